@@ -693,6 +693,70 @@ def gt_reconf(ctx: Ctx) -> RuleResult:
     return r
 
 
+def gt_staleexec(ctx: Ctx) -> RuleResult:
+    """An executor schedules with the priority tables of the graph the DAG has when the executor RUNS.
+
+    Re-configuration replaces the DAG's graph object (new compound priorities). An executor that derived its own graph from the
+    DAG's graph when it was created, and hands that copy to the DAG's run method (which reads the node table live), runs the
+    re-configured nodes in the order of the old priorities."""
+    r = RuleResult("GT-STALEEXEC")
+    cf = ctx.method("BaseDAG", "config_from_dict")
+    rebinds = [n for n in iter_own_nodes(cf.node) if isinstance(n, ast.Assign) and isinstance(n.targets[0], ast.Attribute)
+               and n.targets[0].attr == "graph_ids" and dotted(n.targets[0].value) == "self"]
+    r.ob(True, {"re-configuration re-binds the DAG's graph": bool(rebinds)})
+    if not rebinds:
+        return r  # tables updated in place (or not at all: GT-RECONF): nothing captured can go stale
+    base = ctx.P.classes.get(ctx.cls_q("BaseDAGExecution"))
+    r.require(base is not None, "executor base class not found")
+    captured: Dict[str, Tuple[FuncInfo, ast.AST]] = {}
+    for ci in ctx.P.subclasses(base.qualname):
+        for mth in ci.methods.values():
+            if mth.name not in ("__post_init__", "__init__"):
+                continue
+            for n in iter_own_nodes(mth.node):
+                if isinstance(n, ast.Assign) and isinstance(n.targets[0], ast.Attribute) and dotted(n.targets[0].value) == "self":
+                    srcs = set()
+                    stack = [n.value]
+                    seen = set()
+                    while stack:
+                        e = stack.pop()
+                        for x in ast.walk(e):
+                            if isinstance(x, ast.Attribute) and x.attr == "graph_ids":
+                                srcs.add(norm_src(x))
+                            if isinstance(x, ast.Name) and x.id not in seen:
+                                seen.add(x.id)
+                                for d in ctx.reaching_defs(mth, x.id, n):
+                                    if isinstance(d, ast.Assign):
+                                        stack.append(d.value)
+                    if srcs:
+                        captured[n.targets[0].attr] = (mth, n)
+    r.ob(True, {"executor fields derived from the DAG's graph at construction": sorted(captured)})
+    uses = []
+    for ci in ctx.P.subclasses(base.qualname):
+        for mth in ci.methods.values():
+            if mth.name in ("__post_init__", "__init__"):
+                continue
+            for call, q in ctx.calls_in(mth):
+                if q is None or q not in ctx.P.funcs or ctx.P.funcs[q].cls is None:
+                    continue
+                if not (isinstance(call.func, ast.Attribute) and norm_src(call.func.value) == "self.dag"):
+                    continue
+                for a in list(call.args) + [k.value for k in call.keywords]:
+                    for x in ast.walk(a):
+                        if isinstance(x, ast.Attribute) and dotted(x.value) == "self" and x.attr in captured:
+                            uses.append((mth, call, x.attr, ctx.P.funcs[q]))
+                            r.ob(False, {"in": mth.short, "hands": f"self.{x.attr}", "to": ctx.P.funcs[q].short})
+    if uses:
+        flds = sorted({u[2] for u in uses})
+        mth, call = uses[0][0], uses[0][1]
+        r.violate(f"executors: the graph captured when the executor was created (self.{', self.'.join(flds)}) is executed on the DAG's "
+                  f"current nodes", mth.loc(call),
+                  "dag.config_from_dict(...) after dag.executor(...) replaces the DAG's graph (new compound priorities) and nodes; the "
+                  "executor then runs the new nodes (their new is_sequential, the new max_concurrency) in the order of the OLD compound "
+                  "priorities", sorted({f"{u[0].short} -> {u[3].short}" for u in uses}))
+    return r
+
+
 # --------------------------------------------------------------------------------------------- GT-CYCLE
 def gt_cycle(ctx: Ctx) -> RuleResult:
     r = RuleResult("GT-CYCLE")
@@ -1470,6 +1534,7 @@ def gt_defaultsel(ctx: Ctx) -> RuleResult:
 
 
 RULES = {
+    "GT-STALEEXEC": gt_staleexec,
     "GT-DEFAULTSEL": gt_defaultsel,
     "GT-MODEL": gt_model, "GT-CARRY": gt_carry, "GT-PRIO-SINK": gt_prio_sink, "GT-POP": gt_pop, "GT-FORMULA": gt_formula,
     "GT-RECONF": gt_reconf, "GT-CYCLE": gt_cycle, "GT-SELECT": gt_select, "GT-ALIAS": gt_alias, "GT-GATE": gt_gate,
